@@ -328,6 +328,15 @@ func (p *Prog) dropNewSurface() {
 	for _, fn := range p.Funcs {
 		if knownFn[p.FuncName(outer(fn))] || isInitFunc(fn) {
 			roots = append(roots, fn)
+			continue
+		}
+		// methods a library finds through an interface are reached by the old API although nothing calls them by
+		// name: the decoder calls UnmarshalJSON of a manifest type from OpenDir, fmt calls String and Error
+		if fn.Parent() == nil && fn.Signature.Recv() != nil {
+			switch fn.Name() {
+			case "UnmarshalJSON", "MarshalJSON", "UnmarshalText", "MarshalText", "String", "Error", "Len", "Less", "Swap":
+				roots = append(roots, fn)
+			}
 		}
 	}
 	live := p.reach(roots...)
